@@ -50,7 +50,16 @@ def collect(m, inst):
             raw = str(getattr(sub, 'cardinality', ''))
             tag = raw.lower()
             rawkw.append([raw, tag])
-        stmts.append({'k': KIND.get(st[0], st[0]) if st else '?', 'tag': tag, 'line': s.LineNumber, 'sc': s.StartPosition, 'ec': s.EndPosition,
+        links = []
+        if st and st[0] == 'ACT_SEL':
+            # the navigation steps, from the one the statement designates along the persisted Next_Link_ID
+            by_link = {x.Link_ID: x for x in m.select_many('ACT_LNK')}
+            lnk = one(one(s).ACT_SEL[603]()).ACT_LNK[637]()
+            while lnk is not None and len(links) < 50:
+                o, r = one(lnk).O_OBJ[678](), one(lnk).R_REL[681]()
+                links.append([o.Key_Lett if o else '', 'R%d' % r.Numb if r else '', lnk.Rel_Phrase or ''])
+                lnk = by_link.get(lnk.Next_Link_ID) if lnk.Next_Link_ID else None
+        stmts.append({'k': KIND.get(st[0], st[0]) if st else '?', 'tag': tag, 'links': links, 'line': s.LineNumber, 'sc': s.StartPosition, 'ec': s.EndPosition,
                       'prev': pos(prev) if prev is not None else [], 'first': first_of_block.get(blk.Block_ID, []) if blk else []})
     vals = []
     for v in m.select_many('V_VAL'):
@@ -77,4 +86,5 @@ def collect(m, inst):
     for p in m.select_many('V_PAR'):
         nxt = by_val.get(p.Next_Value_ID) if p.Next_Value_ID else None
         pairs.append([p.Name, nxt.Name if nxt is not None else ''])
-    return {'stmts': stmts, 'vals': vals, 'vars': vars_, 'ppairs': pairs, 'subtype_counts': subs, 'rawkw': rawkw}
+    return {'stmts': stmts, 'vals': vals, 'vars': vars_, 'ppairs': pairs, 'subtype_counts': subs, 'rawkw': rawkw,
+            'nlinks': len(list(m.select_many('ACT_LNK')))}
